@@ -1,6 +1,6 @@
 """Shared machinery of the pipe-level properties (C06, C07, C11, C12, C01): histories of datagrams
 from several exporters through the real pipes vs the model's pipe machine (Model/Pipe.v)."""
-import random
+import random, re
 from engine import *
 
 
@@ -95,8 +95,12 @@ def fmt_tokens(fields, rename, render, keys=None):
     for f in fields or []:
         t += ['field', str(f)]
     for a, b in (rename or {}).items():
-        if str(b) != '':
+        if str(b) == '':
+            continue
+        if re.fullmatch(r'[A-Za-z0-9_.-]+', str(b)):
             t += ['rename', str(a), str(b)]
+        else:
+            t += ['renameb', str(a), '=' + str(b).encode().hex()]      # any characters
     for a, b in (render or {}).items():
         t += ['render', str(a), str(b)]
     for k in keys or []:
